@@ -55,9 +55,11 @@ REQUIRED = [
     "listeners_closed_checked",
     "overlapping_histories",
     "shutdown_while_starting",
+    "shutdown_waited_for_teardown",
+    "shutdown_during_teardown",
 ]
 WATCHDOG = {"quick": 1500, "thorough": 7200}
-OPS = ["serve", "serve", "shutdown", "close", "activate", "echo", "probe"]
+OPS = ["serve", "serve", "shutdown", "shutdown", "close", "activate", "echo", "hold", "probe"]
 
 
 class EchoStream(AsyncStreamRequestHandler):
@@ -122,6 +124,38 @@ def gen_history(rng: random.Random) -> dict:
     }
 
 
+def template_histories() -> list[dict]:
+    """systematic asynchronous histories: a second lifecycle call placed at a grid of offsets inside the tear-down window (a stop
+    request with 0..2 connected clients and a slow on_disconnection) and inside the start-up window (slow listener creation / service_init)"""
+    out = []
+    offs = [0, 0.05, 0.1, 0.2, 0.25, 0.3]
+    for udp in (False, True):
+        for y in ("shutdown", "serve", "close", "probe", "echo"):
+            for d in offs:
+                for disc in (0, 0.25):
+                    for nheld in (0, 1, 2):
+                        for stop in ("shutdown", "close"):
+                            if udp and (nheld == 2 or disc):
+                                continue
+                            ops = [{"task": 0, "op": "serve", "delay": 0}]
+                            t = 0.0
+                            for j in range(nheld):
+                                ops.append({"task": 0, "op": "hold", "delay": 0.5 if j == 0 else 0})
+                                t = 0.5
+                            ops.append({"task": 0, "op": stop, "delay": 0.1})
+                            t += 0.1
+                            ops.append({"task": 1, "op": y, "delay": t + d})
+                            ops.append({"task": 0, "op": "serve", "delay": 0})  # and serve again right after the stop returned
+                            out.append({"udp": udp, "ops": ops, "listen_delay": 0, "init_delay": 0, "disc_delay": disc, "ntasks": 2, "template": f"teardown:{stop}:{y}@{d}:held{nheld}:disc{disc}"})
+        for y in ("shutdown", "close", "serve", "activate"):
+            for d in offs:
+                for ld in (0, 0.25):
+                    for idl in (0, 0.25):
+                        ops = [{"task": 0, "op": "serve", "delay": 0}, {"task": 1, "op": y, "delay": d}, {"task": 1, "op": "probe", "delay": 0.6}]
+                        out.append({"udp": udp, "ops": ops, "listen_delay": ld, "init_delay": idl, "disc_delay": 0, "ntasks": 2, "template": f"startup:{y}@{d}:listen{ld}:init{idl}"})
+    return out
+
+
 class _Up:
     def __init__(self, cb) -> None:
         self.cb = cb
@@ -171,7 +205,9 @@ def run_async_history(h: dict) -> dict:
             except BaseException as exc:  # noqa: BLE001
                 ev("return", call=cid, result=f"raised:{type(exc).__name__}: {exc}")
 
-        async def echo_once() -> str:
+        held: list = []
+
+        async def echo_once(keep: bool = False) -> str:
             if not server.is_serving():
                 return "not-serving"
             addrs = server.get_addresses()
@@ -187,11 +223,16 @@ def run_async_history(h: dict) -> dict:
                 r = await asyncio.wait_for(lp.sock_recv(s, 100), 5)
                 if not r:
                     return "failed:closed-by-server"  # the server was shut down / closed while we were connected
+                if keep and r.strip() == b"ping":
+                    # the client stays connected: a later shutdown has a connection to tear down (on_disconnection delay)
+                    held.append(s)
+                    s = None
                 return "ok" if r.strip() == b"ping" else f"bad:{r!r}"
             except (OSError, asyncio.TimeoutError) as exc:
                 return f"failed:{type(exc).__name__}"
             finally:
-                s.close()
+                if s is not None:
+                    s.close()
 
         async def driver(tid: int):
             for o in [x for x in h["ops"] if x["task"] == tid]:
@@ -220,6 +261,8 @@ def run_async_history(h: dict) -> dict:
                             ev("return", call=cid, result="ServerClosedError")
                     elif op == "echo":
                         ev("return", call=cid, result=await echo_once())
+                    elif op == "hold":
+                        ev("return", call=cid, result=await echo_once(keep=True))
                     else:
                         ev("return", call=cid, result=f"serving={server.is_serving()} listening={server.is_listening()}")
                 except BaseException as exc:  # noqa: BLE001
@@ -243,6 +286,8 @@ def run_async_history(h: dict) -> dict:
                 ev("return", call=cid, result=f"raised:{type(exc).__name__}: {exc}")
                 await asyncio.sleep(0.1)
         await asyncio.gather(*serve_tasks, return_exceptions=True)
+        for hs in held:
+            hs.close()
         cid = ev("call", op="serve", task=-1)
         try:
             await asyncio.wait_for(server.serve_forever(), 5)
@@ -328,6 +373,14 @@ def check_history(events: list, ctx=None, threads: bool = False) -> str | None:
         r = rets[s]
         if r["result"] != "returned":
             return f"shutdown raised {r['result']}"
+        # (e') asynchronous servers: a serve_forever that was up when shutdown was called has *returned* by the time shutdown
+        # returns (the "is shut down" event is set by the last tear-down step of serve_forever, and the waiters run after it)
+        if not threads:
+            for c in serves:
+                if c in ups and ups[c]["i"] < s and (c not in rets or rets[c]["i"] > r["i"]) and not (c in rets and rets[c]["i"] < s):
+                    return f"shutdown (event {s}) returned at event {r['i']} while the serve_forever call (event {c}) it had to stop was still tearing down (returned at {rets[c]['i'] if c in rets else 'never'})"
+            if ctx is not None and any(c in ups and ups[c]["i"] < s and c in rets and s < rets[c]["i"] < r["i"] for c in serves):
+                ctx.count("shutdown_waited_for_teardown")
         # (e) no serve_forever that was up when it was called is still serving when it returns
         if r.get("serving"):
             # legitimate only if another serve_forever came up during the shutdown
@@ -355,7 +408,7 @@ def check_history(events: list, ctx=None, threads: bool = False) -> str | None:
         if ctx is not None and r.get("socks"):
             ctx.count("listeners_closed_checked")
     for c, e in calls.items():
-        if e["op"] == "echo" and rets[c]["result"].startswith("bad"):
+        if e["op"] in ("echo", "hold") and rets[c]["result"].startswith("bad"):
             return f"echo through the serving server answered {rets[c]['result']}"
         if e["op"] == "echo" and rets[c]["result"] == "ok" and ctx is not None:
             ctx.count("echo_ok")
@@ -373,6 +426,11 @@ def check_history(events: list, ctx=None, threads: bool = False) -> str | None:
         for s in shutdowns + closes:
             if any(c < s < (ups[c]["i"] if c in ups else rets[c]["i"]) for c in serves):
                 ctx.count("shutdown_while_starting")
+                break
+        for s in shutdowns:
+            # a stop request issued while an earlier stop request is still tearing the same serve_forever down
+            if any(c in ups and c in rets and ups[c]["i"] < s < rets[c]["i"] and any(ups[c]["i"] < s0 < s for s0 in shutdowns + closes) for c in serves):
+                ctx.count("shutdown_during_teardown")
                 break
     return None
 
@@ -674,6 +732,16 @@ def run_shard(params: dict, ctx) -> None:
             ctx.violation(f"{cat}:async-{'udp' if h['udp'] else 'tcp'}", why, {"history": h, "events": [{k: v for k, v in e.items()} for e in res["events"]][-16:], "threads": False})
         if i == 0:
             ctx.sample(h)
+    T = template_histories()
+    for j in range(params["seed"] % 16, len(T), 16):
+        h = T[j]
+        ctx.count("kind:async-template")
+        res = run_async_history(h)
+        why = f"deadlock: {res['deadlock']} (last events {[(e['k'], e.get('op'), e.get('result')) for e in res['events'][-5:]]})" if res.get("deadlock") else check_history(res["events"], ctx)
+        ctx.case(True, "template", h["template"], h["udp"])
+        if why:
+            cat = "deadlock" if "deadlock" in why or "never returned" in why else "refusal-rule" if ("ServerAlreadyRunning" in why or "ServerClosedError" in why) else "shutdown-rule" if "shutdown" in why else "close-rule" if ("server_close" in why or "listener" in why or "is_listening" in why) else "other"
+            ctx.violation(f"{cat}:async-{'udp' if h['udp'] else 'tcp'}", f"[{h['template']}] {why}", {"history": h, "events": [{k: v for k, v in e.items()} for e in res["events"]][-16:], "threads": False})
     for i in range(params["n_threads"]):
         h = gen_history(rng)
         h["use_server_thread"] = rng.random() < 0.3
